@@ -29,7 +29,7 @@ ASSUMPTIONS = [
     "a negative interval -n fires exactly once, after step n, if the run reaches step n",
     "srun exists on the Monte Carlo drivers only; force-bias drivers are driven through run and irun",
 ]
-REQUIRED = {"splits_checked": 300, "zero_length_pieces": 100, "observer_logs_checked": 800, "negative_interval_logs": 200, "header_checks": 300, "step_invocations_counted": 1000}
+REQUIRED = {"rebuilt_continuations": 60, "splits_checked": 300, "zero_length_pieces": 100, "observer_logs_checked": 800, "negative_interval_logs": 200, "header_checks": 300, "step_invocations_counted": 1000}
 SHARD_TIMEOUT = {"quick": 900, "thorough": 3000}
 
 STEP_COUNT = {"n": 0}
@@ -206,7 +206,8 @@ def run(spec):
             lines = None
         rec.count("header_checks")
         if lines is not None:
-            hdr = [i for i, ln in enumerate(lines) if "Step" in ln and "Epot" in ln]
+            # the header is whatever the first line says (its wording is not fixed by the property); it must not recur
+            hdr = [i for i, ln in enumerate(lines) if ln == lines[0]] if lines else []
             if hdr != [0]:
                 rec.viol(f"C15/header/{shape}", f"log header appears at lines {hdr} (expected exactly once, first)", {**wit, "log_head": lines[:4]})
             rows = len(lines) - len(hdr)
@@ -222,4 +223,39 @@ def run(spec):
                 rec.viol(f"C15/split-differs/{f}/{shape}", f"{f} after the split run differs from a single run({n})", {**wit, "entry_points": list(entries)})
                 break
         rec.sample({**wit, "observer_calls": {str(k): v for k, v in got["calls"].items()}}, cap=2)
+    # 5. a simulation rebuilt from its dictionary in the middle (the documented restart route) and continued through each
+    #    entry point performs exactly the requested number of further steps and ends where the single run ends
+    if w["driver"] not in ("ForceBias", "AdaptiveForceBias") and n >= 2:
+        from ase.io.jsonio import decode, encode
+
+        from qv import sims
+
+        ref = refs.get((OBS_SETS[0], True)) or execute(w, seed, (n,), ("run",), li)
+        for a in sorted({1, n // 2}):
+            for entry in entries_all:
+                wit = {"driver": spec["driver"], "n": n, "rebuilt_after": a, "entry_point": entry}
+                try:
+                    mc, _ = sims.build({**w, "seed": seed})
+                    mc.run(a)
+                    mc2 = type(mc).from_dict(decode(encode(mc.to_dict())))
+                    mc2.atoms.calc = sims.build_calc(w.get("calc", {}), sims.build_atoms(w.get("atoms", {}))[0])
+                    STEP_COUNT["n"] = 0
+                    if entry == "run":
+                        mc2.run(n - a)
+                    elif entry == "srun":
+                        for _ in mc2.srun(n - a):
+                            pass
+                    else:
+                        for step in mc2.irun(n - a):
+                            for _ in step:
+                                pass
+                except Exception as ex:  # noqa: BLE001
+                    rec.viol(f"C15/raised/{type(ex).__name__}", f"continuing a rebuilt simulation raised {type(ex).__name__}: {ex}", wit)
+                    continue
+                rec.evaluations += 1
+                rec.count("rebuilt_continuations")
+                if STEP_COUNT["n"] != n - a or int(mc2.step_count) != n:
+                    rec.viol("C15/step-count/rebuilt-simulation", f"rebuilt at step {a} and asked for {n - a} more steps through {entry}: step() invoked {STEP_COUNT['n']} times, counter {int(mc2.step_count)}", wit)
+                elif sims.state_digest(mc2) != ref["digest"]:
+                    rec.viol("C15/split-differs/digest/rebuilt-simulation", f"rebuilt at step {a} and continued through {entry}: the final state differs from a single run({n})", wit)
     return rec.out()
